@@ -44,6 +44,17 @@ Reason(r) ==
     [] r.op = "reload" -> IF r.res = "ok" /\ Addrs(post) \subseteq Addrs(pre)
                              /\ (r.max > 0 /\ Cardinality(pre) <= r.max => Addrs(post) = { p.addr : p \in { q \in pre : q.retry <= 10 } })
                              /\ \A p \in post : ~p.trusted /\ p.retry = 0 /\ p.ago = Get(pre, p.addr).ago THEN "ok" ELSE "reload"
+    \* bookkeeping about one listed peer (it was just heard from: its age starts again); nobody is added or removed by it
+    [] r.op \in {"hasport", "useragent"} ->
+         LET c == r.args[1].clean
+             hit == c \in Addrs(pre) /\ ~(r.op = "useragent" /\ r.n = 1)
+         IN IF Addrs(post) # Addrs(pre) THEN "bookkeeping-changed-membership"
+            ELSE IF (r.res = "ok") # hit THEN "bookkeeping-result"
+            ELSE IF post # { IF hit /\ p.addr = c THEN [p EXCEPT !.ago = 0] ELSE p : p \in pre } THEN "bookkeeping-post-state" ELSE "ok"
+    [] r.op = "resetall" -> IF post = { [p EXCEPT !.retry = 0] : p \in pre } THEN "ok" ELSE "resetall"
+    [] r.op = "isfull" -> IF post # pre THEN "query-changed-the-list"
+                          ELSE IF r.res # (IF r.max > 0 /\ Cardinality(pre) >= r.max THEN "true" ELSE "false") THEN "is-full"
+                          ELSE IF r.n # Cardinality({ p \in pre : p.trusted }) THEN "all-trusted" ELSE "ok"
     [] OTHER -> "unknown-op"
 
 Conforms == LET x == Reason(Recs[l]) IN x = "ok" \/ PrintT(<<"MISMATCH", "rec", l, Recs[l].op, x>>)
